@@ -32,7 +32,7 @@ def main(argv=None):
         small += [SR.random_super_input(rng, 3, rng.randint(2, 3), 3, False) for _ in range(300)]
         mid = [SR.random_super_input(rng, 4, rng.randint(2, 4), rng.randint(2, 4), False) for _ in range(300)]
         big = [SR.random_super_input(rng, 5, rng.randint(3, 4), rng.randint(3, 4), False) for _ in range(60)]
-        budget, mp, bs = 1500, 30000, 900.0
+        budget, mp, bs = 4500, 30000, 900.0
     q = tier == "quick"
     hist = [SR.random_super_input(rng, rng.randint(3, 4), rng.randint(2, 3), rng.randint(2, 3), False) for _ in range(10 if q else 80)]
     # 4-5 leaves with dup, hgt, sloss symbolic (cheaper per input: more shapes, deeper trees)
@@ -50,6 +50,19 @@ def main(argv=None):
         ("4 leaves, five symbolic costs", [(d, SR.runs_for(algos, ["any", "all"], FLAGS, "full")) for d in mid], False),
         ("5 leaves, dup/hgt/sloss symbolic (spe=0, floss=1)", [(d, SR.runs_for(algos, ["any"], FLAGS, "dhs")) for d in big], False),
     ]
+    if tier == "thorough":
+        # one structural family completely: both 4-leaf shapes, every assignment of the leaves to two species, every non-empty content over three families
+        import itertools
+        subs = [list(c) for k in (1, 2, 3) for c in itertools.combinations("abc", k)]
+        family = []
+        for ot in (((("g0", "g1"), "g2"), "g3"), (("g0", "g1"), ("g2", "g3"))):
+            for assign in itertools.product("AB", repeat=4):
+                for combo in itertools.product(subs, repeat=4):
+                    family.append({"ot": ot, "st": ("A", "B"), "leafmap": dict(zip(["g0", "g1", "g2", "g3"], assign)),
+                                   "leafsyn": dict(zip(["g0", "g1", "g2", "g3"], combo))})
+        sections.append(("complete family: 4 leaves (caterpillar, balanced) x 2 species x every leaf content over 3 families (76 832 inputs), dup/sloss symbolic",
+                         [(d, [{"algo": "superdtl", "policy": "any", "sym": ["dup", "sloss"], "fixed": {"spe": 0, "floss": 1, "hgt": 1},
+                                "flags": sorted(FLAGS), "coherent": True}]) for d in family], True))
     sections = [s for s in sections if s[1]]
     return sr_main.run(
         PROP, tier, seed, sections, ["unordered", "dp"],
